@@ -187,7 +187,7 @@ func (e *Eng) global(g *ssa.Global) *Value {
 	pkg := g.Pkg
 	if e.pkgInit[pkg] == 0 {
 		if !e.initAllowed(pkg) {
-			if e.initMode > 0 {
+			if e.initMode > 0 || pkg.Pkg.Path() == "os" {
 				e.allocGlobals(pkg)
 				e.pkgInit[pkg] = 2
 				return e.globals[g]
@@ -209,6 +209,19 @@ func (e *Eng) allocGlobals(pkg *ssa.Package) {
 			if _, done := e.globals[g]; !done {
 				v := e.zero(g.Type().(*types.Pointer).Elem())
 				e.globals[g] = &v
+			}
+		}
+	}
+	if pkg.Pkg.Path() == "os" {
+		// os's init is not interpreted (it talks to the runtime); its error sentinels are aliases
+		// of io/fs's, which are
+		if fsp := e.prog.ImportedPackage("io/fs"); fsp != nil {
+			for _, n := range []string{"ErrInvalid", "ErrPermission", "ErrExist", "ErrNotExist", "ErrClosed"} {
+				og, ok1 := pkg.Members[n].(*ssa.Global)
+				fg, ok2 := fsp.Members[n].(*ssa.Global)
+				if ok1 && ok2 {
+					*e.globals[og] = *e.global(fg)
+				}
 			}
 		}
 	}
